@@ -65,7 +65,7 @@ func runHistories(c *core.Ctx, which string) {
 	if workers > 14 {
 		workers = 14
 	}
-	c.RunSharded(cases, core.ShardOpts{Mode: "hist-" + which, Workers: workers, Timeout: 30 * time.Minute})
+	c.RunSharded(cases, core.ShardOpts{Mode: "hist-" + which, Workers: workers, Timeout: 30 * time.Minute, PerCaseTime: 15 * time.Second})
 }
 
 // c02Named: deterministic scenarios of C02 (known findings live here).
